@@ -329,6 +329,84 @@ pub fn run_chain(cfg: &Cfg, apps: &Arc<Vec<Vec<L>>>, chain: &[(Delay, Gap)], rep
     ChainResult { steps, max_rel_err: max_err }
 }
 
+/// A request sent more than ten minutes after the previous REQUEST discards the estimate - also while an older transaction
+/// is still outstanding (RTO 20 s: a transaction lives 790 s). History: R0 answered after `first` ms; A sent at 10 s and
+/// not answered, its timers fired on time; B sent `gap` ms after A; B answered after 1 s; A answered (after retransmissions:
+/// no sample); C sent 10 s later. Every interval is compared with the double-precision reference.
+fn long_lived_overlap(rep: &mut Report, apps: &Arc<Vec<Vec<L>>>) {
+    for rto_ms in [20_000u64, 16_000] {
+        for first in [6_000u64, 1_000] {
+            for gap in [601_000u64, 600_000, 650_000] {
+                let cfg = Cfg { transport: Transport::Unreliable { rto_ms, gran_ms: 1, rm: 16, rc: 7 }, mech: Mech::None, fingerprint: false, max_tx: 10, cred: 0, method: 1 };
+                let mut reference = Ref6298::new((rto_ms * MS) as f64, MS as f64);
+                let mut run = explore::start(&cfg, apps, &Nop);
+                let mut hist: Vec<String> = vec![];
+                let mut last_request_at: Option<u64> = None;
+                let ok = Reply::plain(RClass::Success);
+                let mut send = |run: &mut explore::Run, reference: &mut Ref6298, hist: &mut Vec<String>, what: &str, rep: &mut Report| -> Option<usize> {
+                    if let Some(prev) = last_request_at {
+                        if run.w.now - prev > 600_000 * MS {
+                            reference.reset();
+                        }
+                    }
+                    last_request_at = Some(run.w.now);
+                    let o = explore::step(run, &Event::Send { app: 0 }, None);
+                    hist.push(format!("t={} ms: send {}", run.w.now / MS, what));
+                    let CallRes::SendOk(i) = o.res else {
+                        rep.violate("send-fails-in-chain", format!("{:?}", o.res), json!({"config": cfg.show(), "events": hist}));
+                        return None;
+                    };
+                    rep.eval();
+                    let got = run.w.reqs[i].rto_ns as f64;
+                    if (got - reference.rto).abs() > 1e-5 * reference.rto + 1000.0 {
+                        rep.violate(
+                            format!("initial-interval-differs-from-rfc6298/while-an-older-request-is-outstanding/{}", if got > reference.rto { "too-long" } else { "too-short" }),
+                            format!("request {}: client {} ns, reference {:.1} ns", what, got, reference.rto),
+                            json!({"config": cfg.show(), "events": hist.clone()}),
+                        );
+                        return None;
+                    }
+                    Some(i)
+                };
+                let Some(r0) = send(&mut run, &mut reference, &mut hist, "R0", rep) else { continue };
+                explore::step(&mut run, &Event::AdvanceTo(first * MS), None);
+                explore::step(&mut run, &Event::Deliver { to: Target::Req(r0), reply: ok }, None);
+                hist.push(format!("t={} ms: R0 answered", first));
+                reference.sample((first * MS) as f64);
+                explore::step(&mut run, &Event::AdvanceTo(10_000 * MS), None);
+                let Some(a) = send(&mut run, &mut reference, &mut hist, "A", rep) else { continue };
+                let tb = 10_000 * MS + gap * MS;
+                loop {
+                    let d = run.w.reqs[a].pending_deadline();
+                    if d >= tb || !run.w.reqs[a].awaiting() {
+                        break;
+                    }
+                    explore::step(&mut run, &Event::TimerAt(d), None);
+                    hist.push(format!("t={} ms: timer", d / MS));
+                }
+                if !run.w.reqs[a].awaiting() {
+                    continue; // (A did not live long enough under this configuration: nothing to check)
+                }
+                explore::step(&mut run, &Event::AdvanceTo(tb), None);
+                let Some(b) = send(&mut run, &mut reference, &mut hist, "B (A still outstanding)", rep) else { continue };
+                explore::step(&mut run, &Event::AdvanceTo(tb + 1_000 * MS), None);
+                explore::step(&mut run, &Event::Deliver { to: Target::Req(b), reply: ok }, None);
+                hist.push("B answered after 1 s".into());
+                reference.sample((1_000 * MS) as f64);
+                explore::step(&mut run, &Event::AdvanceTo(tb + 5_000 * MS), None);
+                explore::step(&mut run, &Event::Deliver { to: Target::Req(a), reply: ok }, None);
+                hist.push("A answered (it was retransmitted: no sample)".into());
+                explore::step(&mut run, &Event::AdvanceTo(tb + 10_000 * MS), None);
+                if send(&mut run, &mut reference, &mut hist, "C", rep).is_some() {
+                    rep.sym("stale-gap-while-an-older-request-is-outstanding");
+                }
+                rep.transitions += hist.len() as u64;
+                rep.states += hist.len() as u64;
+            }
+        }
+    }
+}
+
 pub fn run(ctx: &RunCtx) -> i32 {
     let thorough = ctx.thorough();
     let apps: Arc<Vec<Vec<L>>> = Arc::new(vec![vec![]]);
@@ -422,6 +500,11 @@ pub fn run(ctx: &RunCtx) -> i32 {
             shared.merge(r);
         });
     }
+    {
+        let mut r = Report::new();
+        long_lived_overlap(&mut r, &apps);
+        shared.merge(r);
+    }
     let pd = [Delay::Ms(1), Delay::Ms(7), Delay::Ms(100), Delay::JustBeforeRto, Delay::AfterRetransmissions(1), Delay::AfterRetransmissions(2)];
     // (configuration, family, index): family 0 = full menu, 1 = reduced menu, 2..=4 = periodic with period 1..=3
     let n_full = (full.len() as u64).pow(full_len as u32);
@@ -476,9 +559,9 @@ pub fn run(ctx: &RunCtx) -> i32 {
         rep,
         Finish {
             level: "model_checking",
-            rule: format!("for RTO {{100, 500, 3000}} ms x granularity {{1, 10, 1000}} ms without credentials, and RTO 500 ms with short-term credentials (answers carry a valid MESSAGE-INTEGRITY) and long-term credentials (every answer is a 401 challenge with a fresh nonce, i.e. a Retry outcome): every chain of {} transactions over 11 response behaviours (1 / 7 / 100 ms, 1 ms before the first retransmission, after one / two retransmissions, never answered, an error response, an early timer call followed by the answer, two overlapping requests answered in either order) x 6 gaps (immediately, 1 s, 599.999 s, 600 s, 600.001 s, 1200 s between consecutive request instants), every chain of {} transactions over a reduced 4 x 3 menu, every chain of 3 transactions over 3 behaviours x 6 gaps of which three contain a send_request refused for lack of buffer space in the middle of the pause (it is not a request and must not refresh the staleness clock), every chain of 3 transactions over 2 behaviours x 6 gaps within a millisecond of the ten-minute limit (600 s - 1 ns, + 1 ns, + 0.5 ms, + 0.999999 ms, + 1 ms), and every periodic chain of period <= 3 over 6 response behaviours repeated to 300 transactions ({} chains in total), executed on the real client. After every send the interval recorded for the transaction (H1), the estimator value (H1) and the announced duration are compared with a double-precision RFC 6298 reference (first sample SRTT=R, RTTVAR=R/2; later RTTVAR before SRTT; RTO=SRTT+max(G,4*RTTVAR); sample iff completed without retransmission; reset iff more than 600 s since the previous request) within 1e-5 relative + 1 microsecond", full_len, red_len, n_jobs),
+            rule: format!("for RTO {{100, 500, 3000}} ms x granularity {{1, 10, 1000}} ms without credentials, and RTO 500 ms with short-term credentials (answers carry a valid MESSAGE-INTEGRITY) and long-term credentials (every answer is a 401 challenge with a fresh nonce, i.e. a Retry outcome): every chain of {} transactions over 11 response behaviours (1 / 7 / 100 ms, 1 ms before the first retransmission, after one / two retransmissions, never answered, an error response, an early timer call followed by the answer, two overlapping requests answered in either order) x 6 gaps (immediately, 1 s, 599.999 s, 600 s, 600.001 s, 1200 s between consecutive request instants), every chain of {} transactions over a reduced 4 x 3 menu, every chain of 3 transactions over 3 behaviours x 6 gaps of which three contain a send_request refused for lack of buffer space in the middle of the pause (it is not a request and must not refresh the staleness clock), every chain of 3 transactions over 2 behaviours x 6 gaps within a millisecond of the ten-minute limit (600 s - 1 ns, + 1 ns, + 0.5 ms, + 0.999999 ms, + 1 ms), 12 directed histories with RTO 16 / 20 s in which a request is sent 600 / 601 / 650 s after the previous one while an older, retransmitted transaction is still outstanding, and every periodic chain of period <= 3 over 6 response behaviours repeated to 300 transactions ({} chains in total), executed on the real client. After every send the interval recorded for the transaction (H1), the estimator value (H1) and the announced duration are compared with a double-precision RFC 6298 reference (first sample SRTT=R, RTTVAR=R/2; later RTTVAR before SRTT; RTO=SRTT+max(G,4*RTTVAR); sample iff completed without retransmission; reset iff more than 600 s since the previous request) within 1e-5 relative + 1 microsecond", full_len, red_len, n_jobs),
             assumptions: vec!["zero-length response times are excluded as the statement says".into(), "verdicts are taken after every send, so chains of the maximal length cover all shorter ones".into()],
-            required_symbols: vec!["sampled", "not-sampled-after-retransmission", "not-sampled-timed-out", "gap-beyond-600s", "gap-exactly-600s", "periodic-300", "sampled-overlapping", "error-response-sampled", "early-timer-then-answer", "failed-send-inside-a-pause", "gap-within-a-millisecond-of-600s"],
+            required_symbols: vec!["sampled", "not-sampled-after-retransmission", "not-sampled-timed-out", "gap-beyond-600s", "gap-exactly-600s", "periodic-300", "sampled-overlapping", "error-response-sampled", "early-timer-then-answer", "failed-send-inside-a-pause", "gap-within-a-millisecond-of-600s", "stale-gap-while-an-older-request-is-outstanding"],
             min_outcomes: 2,
             exhaustive: true,
             bounds: json!({"full_menu_len": full_len, "reduced_menu_len": red_len, "periodic_to": 300}),
